@@ -128,6 +128,31 @@ func c16Flags(e *Env) {
 		})
 		r.Check(found && okNeg, "R16.2", "internal/cmd.NewBuildCmd$RunE#"+f.payload, fmt.Sprintf("runnerPayload.%s = !<variable of --%s>", f.payload, f.flag))
 	}
+	// the other two switches of the command exist as flags and are what RunE reads
+	for _, f := range []struct{ flag, payload string }{{"quiet", ""}, {"stub", "stub"}} {
+		v, ok := flagVar[f.flag]
+		k := "internal/cmd.NewBuildCmd#flag:" + f.flag
+		if !ok {
+			r.Violate("R16.1", k, "flag is not registered: the documented switch --"+f.flag+" is an unknown flag", nil)
+			continue
+		}
+		okUse := f.payload == ""
+		used := false
+		ast.Inspect(fd.Body, func(n ast.Node) bool {
+			if id, isId := n.(*ast.Ident); isId && info.Uses[id] == v {
+				used = true
+			}
+			if kv, isKv := n.(*ast.KeyValueExpr); isKv && f.payload != "" {
+				if kid, isK := kv.Key.(*ast.Ident); isK && kid.Name == f.payload {
+					if vid, isV := ast.Unparen(kv.Value).(*ast.Ident); isV && info.ObjectOf(vid) == v {
+						okUse = true
+					}
+				}
+			}
+			return true
+		})
+		r.Check(okUse && used, "R16.1", k, "--"+f.flag+" is registered and bound to the variable RunE reads")
+	}
 	// link 3 on SSA of buildRunner
 	br := e.P.Func("internal/cmd", "buildRunner")
 	if br == nil {
